@@ -108,6 +108,29 @@ func genCase(t *rapid.T) Case {
 		}
 		c.EPs = append(c.EPs, EPc{IntervalS: iv, TimeoutS: to})
 	}
+	// one history in four: forced check rounds at a cadence below the breaker timeout around an
+	// outage (fail, open the breaker, keep asking every 5..20 s, repair, keep asking)
+	if rapid.IntRange(0, 3).Draw(t, "cadence") == 0 {
+		ep := rapid.IntRange(0, n-1).Draw(t, "cep")
+		gap := func() Op {
+			return Op{Kind: "advance", Secs: rapid.SampledFrom([]int{5, 10, 12, 20}).Draw(t, "gap")}
+		}
+		c.Ops = append(c.Ops, Op{Kind: "set", EP: ep, Outcome: rapid.SampledFrom([]string{"500", "refuse", "503", "net-timeout"}).Draw(t, "cfail")})
+		for i := 0; i < 3; i++ {
+			c.Ops = append(c.Ops, Op{Kind: "runall"}, gap())
+		}
+		for i, m := 0, rapid.IntRange(2, 6).Draw(t, "during"); i < m; i++ {
+			c.Ops = append(c.Ops, Op{Kind: "runall"}, gap())
+		}
+		c.Ops = append(c.Ops, Op{Kind: "set", EP: ep, Outcome: "200"})
+		for i, m := 0, rapid.IntRange(3, 8).Draw(t, "after"); i < m; i++ {
+			c.Ops = append(c.Ops, gap(), Op{Kind: "runall"})
+		}
+		for i, m := 0, rapid.IntRange(0, 3).Draw(t, "tail"); i < m; i++ {
+			c.Ops = append(c.Ops, Op{Kind: "tick"})
+		}
+		return c
+	}
 	k := rapid.IntRange(4, 40).Draw(t, "nops")
 	failing := rapid.Bool().Draw(t, "failing-bias")
 	for i := 0; i < k; i++ {
@@ -115,7 +138,7 @@ func genCase(t *rapid.T) Case {
 		op := Op{Kind: kind}
 		switch kind {
 		case "advance":
-			op.Secs = rapid.SampledFrom([]int{1, 5, 31, 61, 120}).Draw(t, "secs")
+			op.Secs = rapid.SampledFrom([]int{1, 5, 12, 20, 31, 61, 120}).Draw(t, "secs")
 		case "set":
 			op.EP = rapid.IntRange(0, n-1).Draw(t, "ep")
 			op.Outcome = rapid.SampledFrom(outcomes).Draw(t, "outcome")
@@ -152,9 +175,13 @@ type refEP struct {
 	interval time.Duration
 }
 
-type repoAdapter struct{ repo *discovery.StaticEndpointRepository }
+type repoAdapter struct {
+	repo *discovery.StaticEndpointRepository
+}
 
-func (a *repoAdapter) GetEndpoints(ctx context.Context) ([]*domain.Endpoint, error) { return a.repo.GetAll(ctx) }
+func (a *repoAdapter) GetEndpoints(ctx context.Context) ([]*domain.Endpoint, error) {
+	return a.repo.GetAll(ctx)
+}
 func (a *repoAdapter) GetHealthyEndpoints(ctx context.Context) ([]*domain.Endpoint, error) {
 	return a.repo.GetHealthy(ctx)
 }
@@ -348,9 +375,8 @@ func runCase(c Case) []ev.Violation {
 			continue
 		case "advance":
 			shift(time.Duration(op.Secs) * time.Second)
-			for i := range sinceProbe {
-				sinceProbe[i] += time.Duration(op.Secs) * time.Second
-			}
+			// (time that passes without a scheduler tick is not counted against "probed at bounded
+			// intervals": a real scheduler ticks every 30 s, the bound below counts its ticks)
 			trace = append(trace, fmt.Sprintf("+%ds", op.Secs))
 			continue
 		case "proxyfail":
